@@ -501,6 +501,12 @@ class Model(object):
             self.hit("string_zero_length")
         return self.expect((n, pattern(n)))
 
+    def op_str_val2(self, n, _b, _t):
+        return self.expect((n + 1, pattern(n) + "2"))
+
+    def op_str_val3(self, n, _b, _t):
+        return self.expect((n + 2, pattern(n) + "33"))
+
     def op_str_owned(self, n, _b, _t):
         # the library hands out a new std::string; the wrapper copies it and releases it
         hid = self.take_hand("string")
@@ -782,7 +788,7 @@ OPS_COMMON = ["item_default", "item_val", "item_delete", "item_value", "item_set
               "make_box", "box_new", "box_value",
               "hi_new", "hd_new", "hi_get", "hd_get", "hi_put", "hd_put", "hi_delete", "hd_delete", "arr_weights",
               "pt_sum", "pt_out", "pt_scale", "str_final",
-              "str_ref", "str_val", "str_owned", "str_lib", "str_in", "str_out", "str_inout",
+              "str_ref", "str_val", "str_val2", "str_val3", "str_owned", "str_lib", "str_in", "str_out", "str_inout",
               "char_out", "char_ret", "char_inout",
               "vec_sum", "vec_iota", "vec_inc", "vec_alloc", "vec_ret", "vec_str_count",
               "arr_new", "arr_lib", "arr_new_alloc", "cap_delete", "cap_scope",
@@ -838,7 +844,7 @@ def gen_op(rng, model, enabled, uniq):
         return [name]
     if name in ("vec_sum", "arr_sum"):
         return [name, lengths(rng), rng.randrange(4)]  # second argument: kind of Python sequence
-    if name in ("str_val", "str_owned", "char_ret", "vec_iota", "vec_inc", "vec_alloc", "vec_ret",
+    if name in ("str_val", "str_val2", "str_val3", "str_owned", "char_ret", "vec_iota", "vec_inc", "vec_alloc", "vec_ret",
                 "arr_new_alloc", "cap_scope", "vec_ret_d", "vec_ret_l"):
         return [name, lengths(rng)]
     if name == "char_ret_null":
@@ -930,7 +936,7 @@ def gen_op(rng, model, enabled, uniq):
     return None
 
 
-LEAKABLE = ["item_value", "item_label", "use_item", "sum_items", "item_combine", "vec_dot", "box_value", "str_ref", "str_val", "str_lib",
+LEAKABLE = ["item_value", "item_label", "use_item", "sum_items", "item_combine", "vec_dot", "box_value", "str_ref", "str_val", "str_val2", "str_val3", "str_lib",
             "str_in", "str_ptr_in", "str_val_in", "char_ret_len", "str_out", "str_inout", "char_out", "char_ret", "vec_sum", "vec_iota", "vec_alloc", "vec_ret",
             "arr_lib", "arr_sum", "arr_fill_out", "char_arr", "bad_vec_sum", "bad_arg", "bad_arr_sum",
             "hi_get", "hd_get", "arr_weights", "bad_arr_weights", "char_arr_none", "bad_char_arr",
@@ -960,6 +966,7 @@ OP_NEEDS = {
     "pass_item": ("Item", "passItem"), "ref_item": ("Item", "refItem"),
     "make_box": ("Box", "makeBox"), "box_new": ("Box",), "box_value": ("Box",), "box_delete": ("Box",),
     "box_release": ("Box",),
+    "str_val2": ("strVal2",), "str_val3": ("strVal3",),
     "str_ref": ("strRef",), "str_val": ("strVal",), "str_owned": ("strOwned",), "str_lib": ("strLib",),
     "str_in": ("strIn",), "str_out": ("strOut",), "str_inout": ("strInout",), "char_out": ("charOut",),
     "char_ret": ("charRet",), "char_inout": ("charInout",), "vec_sum": ("vecSum",), "vec_iota": ("vecIota",),
